@@ -182,7 +182,94 @@ def gen_case(rng):
 # ------------------------------------------------------------------ running
 
 
-def _install_prune_observer(sink):
+class FeedRecorder:
+    """What the real executor feeds the scheduler, recorded from the outside by the observing
+    `WorkQueue` subclass: the initial `Work` and every graph event *in the order the scheduler
+    handles it* (task results with their nested work, stream batches with `is_stopped()` as read
+    at that moment, stream ends).  Objects are numbered by first sight, a group's parent first
+    (allocation order: the parent object exists before the group).  `sim_line()` is the
+    `drv_c05 sim` case whose `envok` flag decides `EnvOk` on this feed; all tasks are declared
+    asynchronous, so every handled event is an environment event of the model."""
+
+    def __init__(self):
+        self.g, self.t, self.s = {}, {}, {}
+        self.gdecl, self.tdecl = [], []
+        self.work = None
+        self.events = []
+        self.fed = set()  # groups that appeared in the `groups` of some Work
+
+    def gid(self, g):
+        k = id(g)
+        if k not in self.g:
+            parent = getattr(g, "parent", None)
+            pid = self.gid(parent) if parent is not None else -1
+            self.g[k] = (len(self.g), g)
+            self.gdecl.append([self.g[k][0], pid])
+        return self.g[k][0]
+
+    def tid(self, t):
+        k = id(t)
+        if k not in self.t:
+            self.t[k] = (len(self.t), t)
+            self.tdecl.append([self.t[k][0], [self.gid(g) for g in t.groups]])
+        return self.t[k][0]
+
+    def sid(self, st):
+        k = id(st)
+        if k not in self.s:
+            self.s[k] = (len(self.s), st)
+        return self.s[k][0]
+
+    def enc_work(self, w):
+        if w is None:
+            return None
+        gs = [self.gid(g) for g in w.groups]
+        self.fed.update(gs)
+        return {"g": gs, "t": [self.tid(t) for t in w.tasks], "s": [self.sid(x) for x in w.streams]}
+
+    def unfed_parents(self):
+        """Groups given to the scheduler whose parent object never was (in no Work at all): the
+        scheduler keeps them as orphans that are never delivered; EnvOk (E2) excludes them."""
+        return [[g, p] for g, p in self.gdecl if g in self.fed and p >= 0 and p not in self.fed]
+
+    def init(self, work):
+        self.work = self.enc_work(work)
+
+    def handled(self, wq, ev):
+        name = type(ev).__name__
+        if name == "_TaskSuccess":
+            t = self.tid(ev.task)
+            w = self.enc_work(ev.result.work)
+            self.events.append(["ts", t, {"groups": list(self.tdecl[t][1]), "path": [], "tag": 0, "errs": 0, "work": w}])
+        elif name == "_TaskFailure":
+            self.events.append(["tf", self.tid(ev.task)])
+        elif name == "_StreamItems":
+            items = [{"idx": -1, "tag": 0, "errs": 0, "work": self.enc_work(it.work)} for it in ev.items]
+            self.events.append(["si", self.sid(ev.stream), items, bool(ev.stream.queue.is_stopped())])
+        elif name == "_StreamSuccess":
+            # the pump's trailing success after a batch delivered with is_stopped() true is produced
+            # by the model itself (deferred); only a success of a stream that is still a root is fed
+            if ev.stream in wq._root_streams:  # noqa: SLF001
+                self.events.append(["ss", self.sid(ev.stream)])
+        elif name == "_StreamFailure":
+            self.events.append(["sf", self.sid(ev.stream)])
+
+    def case(self):
+        return {
+            "groups": [[g, p, []] for g, p in self.gdecl],
+            "tasks": [[t, gs, 2, None] for t, gs in self.tdecl],
+            "streams": [[i, []] for i in range(len(self.s))],
+            "work": self.work,
+            "history": [self.events] if self.events else [],
+        }
+
+    def sim_line(self):
+        from tools import c05_direct as D
+
+        return D.enc_case(self.case(), fuel=len(self.events) + 10)
+
+
+def _install_prune_observer(sink, feeds=None):
     """Swap `incremental_publisher.WorkQueue` (a module-level name, from the outside) for a subclass
     that *observes* `_prune_empty_groups`: it records when a group is dropped as empty (pending == 0)
     although it still holds a completed task whose value has not been delivered, because the task also
@@ -194,6 +281,25 @@ def _install_prune_observer(sink):
     base = ip.WorkQueue
 
     class ObservingWorkQueue(base):
+        def __init__(self, initial_work=None):
+            self._c05_feed = None
+            if feeds is not None:
+                try:
+                    self._c05_feed = FeedRecorder()
+                    self._c05_feed.init(initial_work)
+                    feeds.append(self._c05_feed)
+                except Exception:  # noqa: BLE001
+                    self._c05_feed = None
+            super().__init__(initial_work)
+
+        def _handle_graph_event(self, graph_event):
+            if self._c05_feed is not None:
+                try:
+                    self._c05_feed.handled(self, graph_event)
+                except Exception as e:  # noqa: BLE001  (observation must never change behaviour)
+                    self._c05_feed.events.append(["error", repr(e)])
+            return super()._handle_graph_event(graph_event)
+
         def _prune_empty_groups(self, new_groups, non_empty_new_groups=None):
             try:
                 group_nodes = self._group_nodes  # noqa: SLF001
@@ -280,8 +386,8 @@ def run_case(case, max_steps=200000):
             return later(v, d)
         return v
 
-    info = {"hang": False, "error": None, "pruned_undelivered": []}
-    restore = _install_prune_observer(info["pruned_undelivered"])
+    info = {"hang": False, "error": None, "pruned_undelivered": [], "feeds": []}
+    restore = _install_prune_observer(info["pruned_undelivered"], info["feeds"])
 
     async def main():
         res = experimental_execute_incrementally(
